@@ -386,6 +386,7 @@ class DictReader:
         # self.subroutines = []
         self.scopes = []
         self.undefined_values = {}
+        self.value_types = {}
 
     def construct(self, json_txt):
         d = json.loads(json_txt)
@@ -487,6 +488,7 @@ class DictReader:
 
         # self.subroutines.append(subroutine)
         self.enter_scope()
+        self.value_types = self.scan_value_types(json_blocks)
         for json_parameter in json_parameters:
             name = json_parameter["name"]
             ty = self.get_type(json_parameter["type"])
@@ -499,9 +501,38 @@ class DictReader:
             if subroutine.entry is None:
                 subroutine.entry = block
             subroutine.add_block(block)
+        self.value_types = {}
         self.leave_scope()
         # self.subroutines.pop()
         return subroutine
+
+    def scan_value_types(self, json_blocks):
+        """Types of the values defined in a subroutine.
+
+        Used to give the placeholder of a value that is referenced before
+        its definition the proper type.
+        """
+        value_types = {}
+        for json_block in json_blocks:
+            for json_instruction in json_block["instructions"]:
+                if "name" not in json_instruction:
+                    continue
+                kind = json_instruction["kind"]
+                if kind == "alloc":
+                    ty = ir.BlobDataTyp(
+                        json_instruction["size"], json_instruction["alignment"]
+                    )
+                elif kind == "literaldata":
+                    data = asc2bin(json_instruction["data"])
+                    ty = ir.BlobDataTyp(len(data), 1)
+                elif kind == "addressof":
+                    ty = ir.ptr
+                elif "type" in json_instruction:
+                    ty = self.get_type(json_instruction["type"])
+                else:
+                    continue
+                value_types[json_instruction["name"]] = ty
+        return value_types
 
     def construct_block(self, json_block, subroutine):
         name = json_block["name"]
@@ -654,6 +685,7 @@ class DictReader:
             if name in self.undefined_values:
                 value = self.undefined_values[name]
             else:
+                ty = self.value_types.get(name, ty)
                 value = ir.Undefined(name, ty)
                 self.undefined_values[name] = value
         return value
